@@ -14,6 +14,7 @@ import (
 	"github.com/enfein/mieru/v3/apis/model"
 	"github.com/enfein/mieru/v3/pkg/appctl/appctlpb"
 	"github.com/enfein/mieru/v3/pkg/common"
+	"github.com/enfein/mieru/v3/pkg/egress"
 	"github.com/enfein/mieru/v3/pkg/log"
 	"github.com/enfein/mieru/v3/pkg/stderror"
 )
@@ -158,7 +159,7 @@ func (s *Server) handleAssociatePacketOverStream(ctx context.Context, _ *model.R
 		return fmt.Errorf("failed to send reply: %w", err)
 	}
 
-	return RunUDPAssociateLoop(udpConn, apicommon.NewPacketOverStreamTunnel(proxyConn), s.config.Resolver)
+	return runUDPAssociateLoop(udpConn, apicommon.NewPacketOverStreamTunnel(proxyConn), s.config.Resolver, s.udpDatagramFilter(proxyConn))
 }
 
 func (s *Server) handleAssociateDatagram(ctx context.Context, _ *model.Request, proxyConn net.Conn) error {
@@ -188,7 +189,25 @@ func (s *Server) handleAssociateDatagram(ctx context.Context, _ *model.Request, 
 		return fmt.Errorf("failed to send reply: %w", err)
 	}
 
-	return runUDPAssociateDatagramLoop(udpConn, proxyConn, s.config.Resolver)
+	return runUDPAssociateDatagramLoop(udpConn, proxyConn, s.config.Resolver, s.udpDatagramFilter(proxyConn))
+}
+
+// udpDatagramFilter returns the filter applied to every datagram relayed in a
+// UDP association of proxyConn: the destination in the datagram header gets the
+// same egress decision as a CONNECT request to it, and is dropped on REJECT.
+func (s *Server) udpDatagramFilter(proxyConn net.Conn) datagramFilter {
+	var env map[string]string
+	if userCtx, ok := proxyConn.(apicommon.UserContext); ok && userCtx.UserName() != "" {
+		env = map[string]string{"user": userCtx.UserName()}
+	}
+	return func(dst []byte) bool {
+		in := egress.Input{
+			Protocol: appctlpb.ProxyProtocol_SOCKS5_PROXY_PROTOCOL,
+			Data:     append([]byte{constant.Socks5Version, constant.Socks5ConnectCmd, 0}, dst...),
+			Env:      env,
+		}
+		return s.FindAction(context.Background(), in).Action != appctlpb.EgressAction_REJECT
+	}
 }
 
 // handleForwarding forward the request to the egress proxy.
